@@ -102,7 +102,7 @@ def run(tier, seed):
         v.sample(rec)
     nt = v.counters.get('feat_declaration_not_alphabetical', 0)
     if nt == 0 or v.counters.get('feat_permutation_not_involution', 0) == 0:
-        raise MachineryError('vacuous run: no non-involutive declaration order')
+        v.vacuous('vacuous run: no non-involutive declaration order')
     cov = dict(states=out['run']['states'], transitions=out['run']['transitions'],
                traces_validated_against_impl=len(recs) + out['lib'][1], evaluations=v.counters.get('evaluations', 0),
                distinct_nontrivial=nt, exhaustive=True,
